@@ -22,6 +22,7 @@ class Store(object):
         self.clock = clock or (lambda: datetime.datetime(2020, 1, 1, tzinfo=pytz.utc))
         self.actor = None
         self.reads = 0
+        self.put_hook = None
 
     def snapshot(self):
         return dict(self.objs)
@@ -35,47 +36,129 @@ class Store(object):
             del self.objs[key]
 
 
+PAGE = 1000   # S3 pages listings and bulk deletes at 1000 keys
+
+
+def _unmodelled(what):
+    from mc.core import HarnessError
+    raise HarnessError('the fake S3 layer does not model %s: extend mc/fakes3.py (this is not a verdict about the code under test)' % what)
+
+
 class _Obj(object):
     def __init__(self, st, key):
         self.st, self.key = st, key
+        self.bucket_name = 'bucket'
 
     @property
     def last_modified(self):
         return self.st.objs[self.key][1]
 
-    def get(self):
+    @property
+    def size(self):
+        return len(self.st.objs[self.key][0])
+
+    @property
+    def content_length(self):
+        return self.size
+
+    def load(self):
+        if self.key not in self.st.objs:
+            raise NoSuchKey(self.key)
+
+    def get(self, **kw):
         self.st.reads += 1
-        return {'Body': io.BytesIO(self.st.objs[self.key][0])}
+        if self.key not in self.st.objs:
+            raise NoSuchKey(self.key)
+        return {'Body': io.BytesIO(self.st.objs[self.key][0]), 'LastModified': self.st.objs[self.key][1], 'ContentLength': len(self.st.objs[self.key][0])}
+
+    def put(self, Body=b'', **kw):
+        return _Client(self.st).put_object(Bucket='bucket', Key=self.key, Body=Body, **kw)
+
+    def delete(self, **kw):
+        if self.key in self.st.objs:
+            self.st.mutate('delete', self.key)
+        return {}
+
+    def __getattr__(self, n):
+        _unmodelled('s3.Object.%s' % n)
 
 
 class _Coll(object):
-    def __init__(self, st, prefix):
-        self.st, self.prefix = st, prefix
+    def __init__(self, st, prefix, limit=None):
+        self.st, self.prefix, self._limit = st, prefix, limit
 
     def __iter__(self):
+        n = 0
         for k in sorted(self.st.objs):
             if k.startswith(self.prefix or ''):
+                if self._limit is not None and n >= self._limit:
+                    return
+                n += 1
                 yield _Obj(self.st, k)
 
-    def delete(self):
+    def filter(self, Prefix=None, **kw):
+        if kw:
+            _unmodelled('objects.filter(%s)' % sorted(kw))
+        return _Coll(self.st, (Prefix or '') if not self.prefix else self.prefix, self._limit)
+
+    def limit(self, n):
+        return _Coll(self.st, self.prefix, n)
+
+    def page_size(self, n):
+        return self
+
+    def all(self):
+        return self
+
+    def delete(self):   # the resource collection paginates by itself
         for k in [o.key for o in self]:
             self.st.mutate('delete', k)
+        return [{}]
+
+    def __getattr__(self, n):
+        _unmodelled('objects collection .%s' % n)
 
 
 class _Objects(object):
     def __init__(self, st):
         self.st = st
 
-    def filter(self, Prefix=None):
+    def filter(self, Prefix=None, **kw):
+        if kw:
+            _unmodelled('objects.filter(%s)' % sorted(kw))
         return _Coll(self.st, Prefix)
 
     def all(self):
         return _Coll(self.st, '')
 
+    def limit(self, n):
+        return _Coll(self.st, '', n)
+
+    def delete(self):
+        return _Coll(self.st, '').delete()
+
+    def __getattr__(self, n):
+        _unmodelled('bucket.objects.%s' % n)
+
 
 class _Bucket(object):
-    def __init__(self, st):
+    def __init__(self, st, name='bucket'):
+        self.st = st
+        self.name = name
         self.objects = _Objects(st)
+
+    def Object(self, key):
+        return _Obj(self.st, key)
+
+    def put_object(self, Key, Body=b'', **kw):
+        _Client(self.st).put_object(Bucket=self.name, Key=Key, Body=Body, **kw)
+        return _Obj(self.st, Key)
+
+    def delete_objects(self, Delete):
+        return _Client(self.st).delete_objects(Bucket=self.name, Delete=Delete)
+
+    def __getattr__(self, n):
+        _unmodelled('s3.Bucket.%s' % n)
 
 
 class _Resource(object):
@@ -83,24 +166,101 @@ class _Resource(object):
         self.st = st
 
     def Bucket(self, name):
-        return _Bucket(self.st)
+        return _Bucket(self.st, name)
+
+    def Object(self, bucket, key):
+        return _Obj(self.st, key)
+
+    def __getattr__(self, n):
+        _unmodelled('boto3.resource("s3").%s' % n)
 
 
 class _Client(object):
     def __init__(self, st):
         self.st = st
 
-    def put_object(self, Bucket, Key, Body, **kw):
+    def put_object(self, Bucket, Key, Body=b'', **kw):
         if isinstance(Body, str):
             Body = Body.encode('utf-8')
+        if hasattr(Body, 'read'):
+            Body = Body.read()
+        hook = self.st.put_hook
+        if hook is not None:
+            hook(Key)     # fault injection: may raise before the request is applied
         self.st.mutate('put', Key, (bytes(Body), self.st.clock(), kw))
         return {}
 
-    def get_object(self, Bucket, Key):
+    def get_object(self, Bucket, Key, **kw):
         self.st.reads += 1
         if Key not in self.st.objs:
             raise NoSuchKey(Key)
-        return {'Body': io.BytesIO(self.st.objs[Key][0])}
+        return {'Body': io.BytesIO(self.st.objs[Key][0]), 'LastModified': self.st.objs[Key][1], 'ContentLength': len(self.st.objs[Key][0])}
+
+    def head_object(self, Bucket, Key, **kw):
+        if Key not in self.st.objs:
+            raise NoSuchKey(Key)
+        return {'LastModified': self.st.objs[Key][1], 'ContentLength': len(self.st.objs[Key][0])}
+
+    def delete_object(self, Bucket, Key, **kw):
+        if Key in self.st.objs:
+            self.st.mutate('delete', Key)
+        return {}
+
+    def delete_objects(self, Bucket, Delete, **kw):
+        keys = [o['Key'] for o in Delete.get('Objects', [])]
+        if len(keys) > PAGE:
+            raise ValueError('MalformedXML: at most 1000 keys per delete_objects request')
+        for k in keys:
+            if k in self.st.objs:
+                self.st.mutate('delete', k)
+        return {'Deleted': [{'Key': k} for k in keys]}
+
+    def _list(self, Prefix='', MaxKeys=PAGE, start_after=None):
+        keys = [k for k in sorted(self.st.objs) if k.startswith(Prefix or '') and (start_after is None or k > start_after)]
+        page = keys[:min(MaxKeys or PAGE, PAGE)]
+        return page, len(keys) > len(page)
+
+    def list_objects_v2(self, Bucket, Prefix='', MaxKeys=PAGE, ContinuationToken=None, StartAfter=None, **kw):
+        page, more = self._list(Prefix, MaxKeys, ContinuationToken or StartAfter)
+        out = {'KeyCount': len(page), 'IsTruncated': more, 'Contents': [{'Key': k, 'LastModified': self.st.objs[k][1], 'Size': len(self.st.objs[k][0])} for k in page]}
+        if not page:
+            out.pop('Contents')
+        if more:
+            out['NextContinuationToken'] = page[-1]
+        return out
+
+    def list_objects(self, Bucket, Prefix='', MaxKeys=PAGE, Marker=None, **kw):
+        page, more = self._list(Prefix, MaxKeys, Marker)
+        out = {'IsTruncated': more, 'Contents': [{'Key': k, 'LastModified': self.st.objs[k][1], 'Size': len(self.st.objs[k][0])} for k in page]}
+        if not page:
+            out.pop('Contents')
+        if more:
+            out['NextMarker'] = page[-1]
+        return out
+
+    def get_paginator(self, name):
+        client = self
+        if name not in ('list_objects_v2', 'list_objects'):
+            _unmodelled('paginator %s' % name)
+
+        class _P(object):
+            def paginate(self, **kw):
+                token = None
+                while True:
+                    r = client.list_objects_v2(ContinuationToken=token, **kw)
+                    yield r
+                    if not r['IsTruncated']:
+                        return
+                    token = r['NextContinuationToken']
+        return _P()
+
+    @property
+    def exceptions(self):
+        import types
+        return types.SimpleNamespace(NoSuchKey=NoSuchKey, ClientError=NoSuchKey)
+
+    def __getattr__(self, n):
+        _unmodelled('boto3.client("s3").%s' % n)
 
 
 class FakeBoto3(object):
@@ -114,6 +274,12 @@ class FakeBoto3(object):
 
     def client(self, name, region_name=None, **kw):
         return _Client(self.store)
+
+    def Session(self, *a, **k):
+        return self
+
+    def __getattr__(self, n):
+        _unmodelled('boto3.%s' % n)
 
 
 FAKE = FakeBoto3()
